@@ -168,6 +168,15 @@ def build(tier, repo):
                                  "accumulator `%s` is updated from the sibling accumulator `%s`: its running %s only reflects the last entry"
                                  % (v, u, kind.lower()), "%s = %s(%s, ..)" % (v, kind, v), "%s(%s, ..)" % (kind, u))
 
+    r13 = chk.rule("C19-R13", "elements of index lists (range-checked, possibly negative) are wrapped before they address anything",
+                   "negative indices in lists address the intended element, never memory before the array")
+    from .. import cdense as cd
+    nw = 0
+    for fname in ("dense.c", "sparse.c"):
+        nw += cd.index_list_wrap_rule(r13, cs[fname], cs[fname].order)
+    chk.note_analysed("index_list_element_reads", nw)
+    r13.require(15)
+
     r9 = chk.rule("C19-R9", "no integer division or modulo by a value that a dominating test does not exclude from being zero",
                   "the interpreter is never crashed (SIGFPE)")
     from .. import cdiv
